@@ -262,18 +262,24 @@ func buildWorld(c *mc.Ctx, scheme string, n int, fallback bool) *world {
 		if mi == 0 {
 			return
 		}
-		agg, err := multisig.NewBLSMultisig(ll, pubs, privs[0], kg, 0)
-		if err != nil {
-			c.Fatal("aggregator: %v", err)
-		}
+		// The aggregate of contributor set mi is built with the low-level signer directly, NOT
+		// through the multisigner's AggregateSigs(bitmap): the adversary's aggregate must not
+		// depend on how the code under test interprets a bitmap (an independent seed changed
+		// isIndexInBitmap, which made AggregateSigs and Verify agree on the wrong member set).
+		var sigs [][]byte
+		var pks []crypto.PublicKey
 		for i := 0; i < n; i++ {
 			if mi&(1<<uint(i)) != 0 {
-				if err := agg.StoreSignatureShare(uint16(i), shares[i]); err != nil {
-					c.Fatal("store share: %v", err)
+				pk, err := kg.PublicKeyFromByteArray([]byte(pubs[i]))
+				if err != nil {
+					c.Fatal("public key: %v", err)
 				}
+				sigs = append(sigs, shares[i])
+				pks = append(pks, pk)
 			}
 		}
-		w.aggs[mi], err = agg.AggregateSigs(bitmapOfMask(uint32(mi), n))
+		var err error
+		w.aggs[mi], err = ll.AggregateSignatures(kg.Suite(), sigs, pks)
 		if err != nil {
 			c.Fatal("aggregate: %v", err)
 		}
